@@ -165,7 +165,7 @@ class FlowTranslator:
                 raise FlowError(f"yield in return at line {s.lineno}")
             if self.callee_mode and s.value is not None:
                 return self.seq(["GAny", "GYield", "GAbort"])   # `return value` delivers content to the caller
-            return self.seq(["GAny", "GAbort"])
+            return self.seq(["GAny", "GReturn"])                # the generator ends silently
         if isinstance(s, (ast.Break, ast.Continue)):
             return "GBreak"
         if isinstance(s, (ast.Pass, ast.FunctionDef, ast.ClassDef, ast.Global, ast.Nonlocal)):
